@@ -205,7 +205,7 @@ func TestVerif_C07_DataSolo(t *testing.T) {
 		}
 		nOps := rapid.IntRange(1, 30).Draw(rt, "nOps")
 		for i := 0; i < nOps; i++ {
-			op := rapid.SampledFrom([]string{"validate", "nominate", "write", "write", "writeToPair", "inject", "inject", "inject", "restart"}).Draw(rt, "op")
+			op := rapid.SampledFrom([]string{"validate", "nominate", "write", "write", "writeToPair", "inject", "inject", "inject", "restart", "toggleWriteFault"}).Draw(rt, "op")
 			if op == "restart" && rapid.IntRange(0, 2).Draw(rt, "reallyRestart") != 0 {
 				op = "write"
 			}
@@ -233,6 +233,12 @@ func TestVerif_C07_DataSolo(t *testing.T) {
 					if err == nil || len(out) != 0 {
 						st.Fail(rt, "C07/write/stun-accepted", "%s: STUN-parsable payload accepted (n=%d err=%v emitted=%d)", where, n, err, len(out))
 					}
+				case sp != nil && s.ag.sockByLocal(sp.Local) != nil && s.ag.sockByLocal(sp.Local).failWrites:
+					// the socket refuses the datagram: nothing was accepted, so nothing may be counted
+					lbl["socket-write-error"] = true
+					if n != 0 || len(out) != 0 {
+						st.Fail(rt, "C07/write/failed-write-reported-as-sent", "%s: the socket refused the write but Write returned n=%d err=%v (emitted %d)", where, n, err, len(out))
+					}
 				case sp != nil:
 					l := s.ag.sockByLocal(sp.Local)
 					if err != nil || n != len(p) || len(out) != 1 || out[0].src != l || out[0].dst != sp.Remote.addrPort() || !bytes.Equal(out[0].data, p) {
@@ -251,7 +257,17 @@ func TestVerif_C07_DataSolo(t *testing.T) {
 						}
 					}
 					lbl["write-before-selection"] = true
-					if !anyValid {
+					anyFaulty := false
+					for _, sk := range s.ag.socks {
+						if sk.failWrites {
+							anyFaulty = true
+						}
+					}
+					if anyFaulty && anyValid {
+						if n > 0 {
+							sumWrite += uint64(n) //nolint:gosec
+						}
+					} else if !anyValid {
 						if !errors.Is(err, ErrNoCandidatePairs) || len(out) != 0 {
 							st.Fail(rt, "C07/write/no-valid-pair", "%s: no validated pair, Write = %d,%v emitted %d (want ErrNoCandidatePairs, nothing)", where, n, err, len(out))
 						}
@@ -297,7 +313,17 @@ func TestVerif_C07_DataSolo(t *testing.T) {
 				n, err := conn.WriteToPair(info.ID, p)
 				out := s.w.emittedSince(from, 0)
 				s.ops = append(s.ops, fmt.Sprintf("writeToPair(%d,%d)=%d,%v", info.ID, len(p), n, err))
-				if info.State == CandidatePairStateSucceeded {
+				faulty := false
+				for _, sk := range s.ag.socks {
+					if sk.cand != nil && sk.cand.addrPort() == pl && sk.failWrites {
+						faulty = true
+					}
+				}
+				if faulty {
+					if n != 0 || len(out) != 0 {
+						st.Fail(rt, "C07/write/failed-write-reported-as-sent", "%s: the socket refused the write but WriteToPair returned n=%d err=%v", where, n, err)
+					}
+				} else if info.State == CandidatePairStateSucceeded {
 					if err != nil || len(out) != 1 || out[0].dst != pr || out[0].src.cand.addrPort() != pl || !bytes.Equal(out[0].data, p) {
 						st.Fail(rt, "C07/writetopair/wrong-route", "%s: WriteToPair(%d) = %d,%v emitted %v, pair is %s→%s", where, info.ID, n, err, out, pl, pr)
 					}
@@ -369,6 +395,15 @@ func TestVerif_C07_DataSolo(t *testing.T) {
 				s.w.mu.Lock()
 				s.w.inflight = nil // a STUN-like injection may have been answered; not the subject here
 				s.w.mu.Unlock()
+			case "toggleWriteFault":
+				if sp := s.ag.selectedPair(); sp != nil {
+					if l := s.ag.sockByLocal(sp.Local); l != nil {
+						l.mu.Lock()
+						l.failWrites = !l.failWrites
+						l.mu.Unlock()
+						s.ops = append(s.ops, fmt.Sprintf("writeFault(%s)=%v", l.name(), l.failWrites))
+					}
+				}
 			case "restart":
 				drain(where)
 				if err := s.ag.restart(); err != nil {
